@@ -121,8 +121,8 @@ def rule_mirrorpipe(ctx):
                 if f.qual in ASYM_NODES:
                     if name in ASYM_NODES[f.qual]:
                         continue
-                elif f.qual in ASYM_BY_DESIGN:
-                    continue
+                elif f.qual in ASYM_BY_DESIGN or any(h in ASYM_BY_DESIGN for h in s.inlined):
+                    continue  # (the reviewed exemption follows a helper's code into the caller it was inlined into)
                 good = False
                 for a in Rk:
                     for b in Ek:
